@@ -33,7 +33,7 @@ enum verif_trace_kind {
 	VT_GVT_PHASE,    ///< a: thread phase left, b: thread phase entered, c: bits of the accumulator / published value
 	VT_NET_SEND,     ///< a: destination node, b: colour (gvt_phase) the message is counted under, c: bits of its timestamp, d: 1 if anti-message
 	VT_NET_RECV,     ///< a: colour the received message is counted under, b: bits of its timestamp, c: 1 if anti-message
-	VT_NODE,         ///< node-level GVT reduction: a: step (1 flip, 2 contribution, 3 contributed, 4 reduced, 5 wait over), b,c: data
+	VT_NODE,         ///< node-level GVT reduction: a: step (1 flip, 2 contribution, 3 contributed, 4 reduced, 5 wait over, 6 round over), b,c: data
 };
 
 #ifdef ROOTSIM_VERIF
